@@ -246,7 +246,11 @@ def close(actual, expected, exact, scale=1.0, dtype=None):
     if not np.all(np.isfinite(e)):
         return True  # the model itself left the finite domain: nothing asserted
     if exact and a.dtype == np.float64:
-        return bool(np.array_equal(a, e))
+        if np.array_equal(a, e):
+            return True
+        if np.all(e == np.round(e)) and np.max(np.abs(e)) < 2.0**50:
+            return False  # certified exact: integer-valued expectation, any difference is real
+        # not integer-valued (an inexact statement slipped into an "exact" run): tolerance
     dt_ = np.dtype(dtype or a.dtype)
     if dt_.kind != "f":
         return bool(np.array_equal(a, e))
